@@ -30,6 +30,7 @@ def run(check, ctx):
     dss_zero_component_rows(check, repo)
     rfc6979_conversion_rows(check, repo)
     rfc6979_nonce_rows(check, repo)
+    eddsa_decode_rows(check, repo)
     emsa_value_rows(check, repo)
     from . import eddsa_compose
     eddsa_compose.eddsa_tables(check, ctx)
@@ -848,6 +849,97 @@ def rfc6979_nonce_rows(check, repo):
                  n, len(orders), hist.get(0, 0), hist.get(1, 0), hist.get(2, 0)),
              expected="k = the first candidate T in [1, q-1] of the HMAC_DRBG of RFC 6979 3.2, K and V updated with V || 0x00 between candidates (step h.3)")
     check.count("rfc6979_rows", n)
+
+
+def eddsa_decode_rows(check, repo):
+    """RFC 8032 5.1.3 / 5.2.3 point decoding as the library performs it: _import_ed25519_public_key /
+    _import_ed448_public_key (the repository's Integer arithmetic and modular square root interpreted) followed by the
+    contract of the point constructor (coordinates below p, on the curve).  For a table of y values (base point, small
+    values, p - 1, values without a point, values >= p) and both sign bits the outcome - the point, or a refusal with
+    ValueError - is compared with the checker's own decoder.  In particular x = 0 with the sign bit set (y = p - 1) is
+    refused.  (Not armed: y = 1 with the sign bit set and, for Ed448, non-zero low bits of the last octet, which the
+    pinned tree accepts - see DESIGN I.5.)"""
+    from .int_table import Backend
+    from ..absval import AClass
+    from ..par import pmap
+    from .c_ed import P25, D25, P448, D448, sqrt_mod, base25519
+    mod = repo.module("Crypto.PublicKey.ECC")
+    be = Backend(repo, "native")
+
+    def ref(y, sign, p, a, d):
+        if y >= p:
+            return "refused"
+        x2 = (y * y - 1) * pow(d * y * y - a, -1, p) % p if (d * y * y - a) % p else None
+        if x2 is None:
+            return "refused"
+        x = sqrt_mod(x2, p)
+        if x is None:
+            return "refused"
+        if x == 0 and sign:
+            return "refused"
+        if x & 1 != sign:
+            x = p - x
+        return (x, y)
+    G25 = base25519()
+    jobs = []
+    ys25 = [G25[1], 0, 2, 3, 4, 5, 6, 7, 9, P25 - 1, P25 - 2, P25 - 3, P25, P25 + 1, (1 << 255) - 1, 1 << 254]
+    for y in ys25:
+        for sign in (0, 1):
+            if y >= (1 << 255):
+                continue
+            enc = bytearray(y.to_bytes(32, "little"))
+            enc[31] |= sign << 7
+            jobs.append(("_import_ed25519_public_key", bytes(enc), y, sign, P25, -1 % P25, D25))
+    ys448 = [0, 2, 3, 4, 5, 6, 7, 9, P448 - 1, P448 - 2, P448, P448 + 1, (1 << 448) - 1]
+    for y in ys448:
+        for sign in (0, 1):
+            enc = y.to_bytes(56, "little") + bytes([sign << 7])
+            jobs.append(("_import_ed448_public_key", enc, y, sign, P448, 1, D448))
+
+    def run(job):
+        fname, enc, y, sign, p, a, d = job
+        it = be.interp()
+        st = State()
+        it.inject.update({"Integer": AClass(be.mod, be.cls), "_curves['curve448'].p": be.make(it, st, P448)})
+        it.unroll_limit = 3000
+        it.for_limit = 3000
+        res = it.run(mod, repo.func(mod, fname), {"encoded": enc}, state=st)
+        rets = res.returns()
+        if not rets and res.raises():
+            return "refused" if set(res.raise_classes()) == {"ValueError"} else "raises %s" % res.raise_classes()
+        if len(rets) != 1 or res.raises():
+            return "undecided (%d exits, %s)" % (len(rets), res.raise_classes())
+        v = rets[0].value
+        if not isinstance(v, (tuple, list)) or len(v) != 2:
+            return "undecided (%r)" % (v,)
+        xy = tuple(be.value(rets[0].state, c) if be.is_own(c) else c for c in v)
+        if not all(isinstance(c, int) for c in xy):
+            return "undecided (%r)" % (xy,)
+        x_, y_ = xy
+        # the point constructor's contract (decided by the C05 / C06 rows): range and curve membership
+        if not (0 <= x_ < p and 0 <= y_ < p) or (a * x_ * x_ + y_ * y_ - 1 - d * x_ * x_ * y_ * y_) % p:
+            return "refused"
+        return (x_, y_)
+    got = pmap(run, jobs)
+    wrong = []
+    und = 0
+    for job, g in zip(jobs, got):
+        fname, enc, y, sign, p, a, d = job
+        if y == 1 and sign:
+            continue
+        want = ref(y, sign, p, a, d)
+        if isinstance(g, str) and g.startswith("undecided"):
+            und += 1
+        if g != want:
+            ys = "p%+d" % (y - p) if abs(y - p) < 5 else (hex(y)[:12] + "..")
+            wrong.append("%s y = %s sign %d: %s, RFC 8032 says %s" % (fname.split("_")[2], ys, sign, g if isinstance(g, str) else "the point with x = %s.." % hex(g[0])[:10],
+                                                                      want if isinstance(want, str) else "the point with x = %s.." % hex(want[0])[:10]))
+    if und == len(jobs):
+        raise AnalysisError("EdDSA point decoding could not be interpreted: %s" % wrong[0])
+    fn = repo.func(mod, "_import_ed25519_public_key")
+    check.ob("K-pw", "K-pw|eddsa.decode", not wrong, mod.path, fn.lineno,
+             extracted=("%d of %d encodings differ: " % (len(wrong), len(jobs)) + "; ".join(wrong[:3])) if wrong else "%d encodings (Ed25519 and Ed448, both sign bits): the decoded point, or ValueError, as RFC 8032 5.1.3 / 5.2.3" % len(jobs),
+             expected="decoding recovers x from y and the sign bit; y >= p, y without a point and x = 0 with the sign bit set are refused")
 
 
 def emsa_value_rows(check, repo):
